@@ -23,7 +23,10 @@ exactly those satisfying every term over queryable columns (evaluated in python)
 Two defect classes found while building this check (keys `t.m` / `t.m.x` sharing the HDF subtree /t/m; frames with
 object cells on which HDFStore.put fails after check_writable passed; an empty group /t/n left by removing `t.n.m` or by
 a failed put below it blocking the JSON write of `t.n`) were repaired in /repo by 4bbd9e87, 4cf26c03, 29349355, d4f70230;
-all three classes are part of the generator and the corpus (overlapping two-/three-part keys, `badframe` data, three-part
+further: a strict comparison of a float column with 0 in a filter term raised FloatingPointError (ddb6f9f8), a Series not
+named `value` could not be loaded through a draw filter (7b59923b) - float index levels / Series value columns compared with
+0 and Series of any name under draw filters are generated too;
+all these classes are part of the generator and the corpus (overlapping two-/three-part keys, `badframe` data, three-part
 key removed / refused and then its two-part prefix written), so a regression of those fixes - or of 18714332, f8d5c251,
 7b352a55 - fails the oracle: a write for which the property lists no rejection reason must be ACCEPTED.
 """
@@ -464,13 +467,25 @@ def gen_ops(rng, tier_max):
             ints = [n for n in fr["names"] if n != "sex"]
             lvl = rng.choice(ints)
             vals = sorted({t[fr["names"].index(lvl)] for t in fr["index"]} | ({0} if lvl == "age_start" else set()))
-            draws = [int(c.split("_")[1]) for c in fr["cols"] if c.startswith("draw_")]
-            bite = {"terms": [["atom", lvl, rng.choice([">", "==", "!=", "<="]), rng.choice(vals)]] if rng.random() < 0.75 else [],
-                    "draw": None, "pos": 0}
-            if (not bite["terms"] or rng.random() < 0.4) and len(fr["cols"]) > 1:
-                bite["draw"] = {"form": "in", "draws": rng.sample(draws, 1) if draws else [7]}
-            if not bite["terms"] and not bite["draw"]:
-                bite["terms"] = [["atom", lvl, ">", vals[0]]]
+            if rng.random() < 0.3:
+                # a Series (any name, or none) behind a draw filter and / or a term over its own column, 0 included
+                nm = rng.choice(["value", None, "x", "count"])
+                fr = {"t": "series", "names": fr["names"], "index": fr["index"], "name": nm,
+                      "values": [rng.choice([0.0, 0.5, 2.0, -1.25]) for _ in fr["index"]]}
+                bite = {"terms": [], "draw": {"form": rng.choice(["==", "in"]), "draws": [rng.choice([0, 1, 7])]} if rng.random() < 0.7 else None,
+                        "pos": 0}
+                if nm is not None and rng.random() < 0.6:
+                    bite["terms"].append(["atom", nm, rng.choice([">", "<", ">=", "=="]), rng.choice([0, 0, 0.5])])
+                if not bite["terms"] and (bite["draw"] is None or rng.random() < 0.4):
+                    bite["terms"].append(["atom", lvl, rng.choice([">", "<", "==", "!="]), rng.choice(vals)])
+            else:
+                draws = [int(c.split("_")[1]) for c in fr["cols"] if c.startswith("draw_")]
+                bite = {"terms": [["atom", lvl, rng.choice([">", "==", "!=", "<=", "<"]), rng.choice(vals)]] if rng.random() < 0.75 else [],
+                        "draw": None, "pos": 0}
+                if (not bite["terms"] or rng.random() < 0.4) and len(fr["cols"]) > 1:
+                    bite["draw"] = {"form": "in", "draws": rng.sample(draws, 1) if draws else [7]}
+                if not bite["terms"] and not bite["draw"]:
+                    bite["terms"] = [["atom", lvl, ">", vals[0]]]
             filters.append(bite)
             fb = len(filters)
             k = rng.choice(["pop.flu.incidence", "cause.theta", "risk.tb.structure", "metadata.versions"])
